@@ -1,5 +1,6 @@
 import SSEPyVerif.Driver.Proto
 import SSEPyVerif.Model.PArray
+import SSEPyVerif.Model.PDict
 namespace SSEPy.Driver
 open SSEPy.Proto SSEPy.PArray
 
@@ -46,6 +47,64 @@ def parrReq (st : Option PArr) : List String → Option PArr × String
     | none => (st, bad)
   | "op" :: rest => match st, parseOp rest with
     | some s, some op => let (s', o) := step s op; (some s', showOut o)
+    | _, _ => (st, bad)
+  | _ => (st, bad)
+
+end SSEPy.Driver
+
+namespace SSEPy.Driver
+open SSEPy.Proto SSEPy.PDict
+
+def showDOut : PDict.Out → String
+  | .unit => "ok"
+  | .val b => "ok " ++ showBytes b
+  | .optVal none => "ok N"
+  | .optVal (some b) => "ok " ++ showBytes b
+  | .bool b => "ok " ++ showBool b
+  | .nat n => s!"ok {n}"
+  | .keys l => "ok " ++ showList showBytes l
+  | .err e => "err " ++ e.name
+
+def parseVal (s : String) : Option Val :=
+  if s == "X" then some .nonBytes else (parseBytes s).map .bytes
+
+def parseDOp : List String → Option PDict.Op
+  | ["set", k, v] => do pure (.set (← parseBytes k) (← parseVal v))
+  | ["get", k] => (parseBytes k).map .get
+  | ["del", k] => (parseBytes k).map .del
+  | ["contains", k] => (parseBytes k).map .contains
+  | ["len"] => some .len
+  | ["iter"] => some .iter
+  | ["getd", k, d] => do
+    let k ← parseBytes k
+    if d == "N" then pure (.getd k none) else pure (.getd k (some (← parseBytes d)))
+  | ["clear"] => some .clear
+  | ["sync"] => some .sync
+  | ["close"] => some .close
+  | _ => none
+
+def parsePairs (s : String) : Option Assoc :=
+  if s == "." then some [] else
+  (s.splitOn ",").mapM fun kv => match kv.splitOn ":" with
+    | [k, v] => do pure ((← parseBytes k), (← parseBytes v))
+    | _ => none
+
+/-- `pdict create` | `pdict fromdict K:V,…` | `pdict reopen` | `pdict op …` | `pdict items` -/
+def pdictReq (st : Option PDict.PDict) : List String → Option PDict.PDict × String
+  | ["create"] => (some PDict.create, "ok")
+  | ["fromdict", ps] => match parsePairs ps with
+    | some a => (some (PDict.fromDict (a.foldl (fun acc p => PDict.dinsert p.1 p.2 acc) [])), "ok")
+    | none => (st, bad)
+  | ["reopen"] => match st with
+    | some d => match PDict.reopen d with
+      | .ok d' => (some d', "ok")
+      | .error e => (st, "err " ++ e.name)
+    | none => (st, "err FileNotFoundError")
+  | ["items"] => match st with
+    | some d => (st, "ok " ++ showList (fun p => showBytes p.1 ++ ":" ++ showBytes p.2) d.data)
+    | none => (st, bad)
+  | "op" :: rest => match st, parseDOp rest with
+    | some d, some op => let (d', o) := PDict.step d op; (some d', showDOut o)
     | _, _ => (st, bad)
   | _ => (st, bad)
 
